@@ -149,8 +149,11 @@ Op(name) ==
   /\ UNCHANGED <<cfg, now, st, startT, gout, gid, trial, ngate>>
 
 Quiescent == \A c \in Callers : st[c] # "created" /\ ~(st[c] = "running" /\ gout[c] \notin {"none", "pending"})
+\* cfg.lazy = 1: runs in which the executor may let time pass before a runnable caller is polled
+\* (the call's duration is measured from the poll that starts the inner call, not from Service::call)
+Lazy == "lazy" \in DOMAIN cfg /\ cfg.lazy = 1
 Advance(d) ==
-  /\ d > 0 /\ Quiescent
+  /\ d > 0 /\ (Lazy \/ Quiescent)
   /\ now' = now + d
   /\ ev' = [e |-> "advance", d |-> d, t |-> now + d, ns |-> 0] @@ Views(state, win)
   /\ UNCHANGED <<cfg, mach, st, startT, gout, gid, trial, ngate>>
